@@ -22,7 +22,9 @@ MCBuild == << [k |-> "Segment", args |-> <<1, 2>>], [k |-> "HalfLine", args |-> 
               [k |-> "Polyhedron", args |-> <<4, 5, 6, 7>>], [k |-> "Plane", args |-> <<>>], [k |-> "Point", args |-> <<>>],
               [k |-> "SegmentPV", args |-> <<1, 5>>], [k |-> "HalfLinePV", args |-> <<1, 6>>],
               [k |-> "HalfLineX", args |-> <<>>], [k |-> "HalfLineX", args |-> <<>>], [k |-> "HalfLineX", args |-> <<>>],
-              [k |-> "LineX", args |-> <<>>] >>
+              [k |-> "LineX", args |-> <<>>],
+              \* objects derived from other live objects: -polygon (5), the polyhedron's own move() result is covered by Move
+              [k |-> "Neg", args |-> <<5>>] >>
 MCHeap == << MkSegment(LP(A), LP(B)), MkHalfLine(LP(A), Sub(C, A)), MkLine(LP(A), Sub(D, A)),
              Tri(A, B, C), Tri(A, B, D), Tri(A, C, D), Tri(B, C, D),
              HullBody({LP(A), LP(B), LP(C), LP(D)}), MkPlane(LP(B), <<1, -1, 2>>), MkPoint(LP(E)),
@@ -30,7 +32,9 @@ MCHeap == << MkSegment(LP(A), LP(B)), MkHalfLine(LP(A), Sub(C, A)), MkLine(LP(A)
              \* collinear with object 2 (A -> C): facing it from C, back to back at A, facing it from beyond C
              MkHalfLine(LP(C), Sub(A, C)), MkHalfLine(LP(A), Sub(A, C)), MkHalfLine(LP(Add(C, Sub(C, A))), Sub(A, C)),
              \* the carrier of segments 1 and 11, directed against them
-             MkLine(LP(B), Sub(A, B)) >>
+             MkLine(LP(B), Sub(A, B)),
+             \* -Tri(A, B, D): the same point set with the opposite orientation, built from live object 5
+             MkPolygon(CCWCycle(Range(Tri(A, B, D).cyc), Neg(Tri(A, B, D).n)), Neg(Tri(A, B, D).n)) >>
 MCObjChoices == { MCHeap }
 MCMoveVecs   == { <<S, 0, 0>>, <<1, 2, -1>>, <<0, 0, -S>> }
 MCProbes     == <<>>
